@@ -410,6 +410,12 @@ def gen_key_cases(ctx: Ctx):
         n = sum(v != "absent" for v in ds.values())
         for order in (("listed", "reversed") if n >= 2 else (None,)):
             cases.append(key_case(r, st, order))
+    # one mode key x one detector key, each filled / `key:` / `key: {}` (the documents that may load)
+    for mk in MODES:
+        for dk in DETS:
+            for msv in STATES[1:]:
+                for dsv in STATES[1:]:
+                    cases.append(key_case(r, {mk: msv, dk: dsv}))
     if ctx.tier == "thorough":
         for ms in mode_sts:
             for ds in det_sts:
@@ -509,13 +515,14 @@ def run_direct(ctx: Ctx, cases):
                                      str(o)[:400], c))
             continue
         pairs.append((c, o))
-        if o["accepted"] and not o.get("holds_given", True):
-            ctx.violations.append(direct_violation(c, o))
     ev = eval_files(ctx, {"c_000": emit_direct_file(pairs)})["c_000"]
     mism, viol = [], []
     if ev is not None:
         mism = [pairs[i] for i in core.parse_int_list(ev[0])]
         viol = [pairs[i] for i in core.parse_int_list(ev[1])]
+    # accepted, but the configuration does not hold the objects it was given
+    viol += [(c, o) for c, o in pairs if o["accepted"] and not o.get("holds_given", True)
+             and not any(c is c2 for c2, _ in viol)]
     for c, o in pairs:
         ctx.count("evaluations")
         ctx.count("direct_constructions")
@@ -1635,11 +1642,8 @@ def replay(ctx: Ctx, rp: dict) -> int:
         print("implementation now returns:", o)
         if "accepted" not in o:
             return 1
-        if rp.get("clause") == "stored":
-            bad = o["accepted"] and not o.get("stored", True)
-        else:
-            ok, ev, se = core.coq_eval(ctx, "replay", emit_guard_file([(case, o)]))
-            bad = ok and core.parse_int_list(ev[1]) != []
+        ok, ev, se = core.coq_eval(ctx, "replay", emit_guard_file([(case, o)]))
+        bad = (ok and core.parse_int_list(ev[1]) != []) or bool(o["accepted"] and not o.get("stored", True))
     elif k == "keys":
         o = core.run_driver(ctx, "c12", [case], workers=1)[0]
         print("implementation now returns:", o)
@@ -1693,12 +1697,22 @@ META = dict(
         "refuse every out-of-range number whatever carries it (numpy.int64/int32/float32 scalars included); decided by a "
         "reflective checker over half-lines proved sound for all inputs (the 28 defects of the unrepaired tree that refuted "
         "this statement were repaired by fix: commits; a regression makes the theorem fail and is reported with a concrete "
-        "input). EXACTLY-ONE: the regenerated count checks of the loader accept a key set iff it has exactly one mode and one "
-        "detector (all key sets). SETTINGS: the document->settings map is lossless and derived objects "
+        "input). STORED (C12_stored_is_written, C12_accepted_is_kept_in_range): what each constructor / setter keeps of the "
+        "value is regenerated too (`self._f = f`, `float(f)`, `int(f)` ...); for every documented field and every value, the "
+        "value that is kept is the value that was given, hence inside the documented range (a truncating store fails the "
+        "theorem). EXACTLY-ONE (C12_exactly_one, _two_sections_refused, _uses_it, _built): for EVERY assignment of "
+        "{absent, `key:`, `key: {}`, filled} to the top-level keys, the regenerated loader (count checks WITH their way of "
+        "counting a section, order of the if/elif chains, checks of Configuration.__post_init__) hands sections m, d to their "
+        "builders iff m is the only mode key and d the only detector key present - an empty section is never skipped in "
+        "favour of, and never hides, another one; Configuration(...) called directly takes the objects iff exactly one of "
+        "each is given. SETTINGS: the document->settings map is lossless and derived objects "
         "(Readout.replace, regenerated list of carried settings; setters; sweep points) keep every setting that was not "
         "changed - theorems about a structural MODEL. That the code behaves like the tables/model is established by "
-        "correspondence (= testing): every field x 4 paths (constructor, YAML, attribute, Processor.set) on boundary/"
-        "out-of-range/NaN/inf/None/numpy-carried values, all 128 subsets of mode/detector keys through pyxel.load, generated "
+        "correspondence (= testing): every field x 6 paths (constructor, from_dict, YAML, attribute, Processor.set, a real "
+        "observation run) on boundary/out-of-range/NaN/inf/None/numpy-carried values and - for row/col/adc_bit_resolution - "
+        "values that are not whole numbers, the value read back from the field compared inside Coq; all 128 subsets of "
+        "mode/detector keys and every assignment of section states to the mode keys and to the detector keys through "
+        "pyxel.load (both file orders), all 128 sets of objects through Configuration(...); generated "
         "documents over 4 detectors x 3 modes (readout incl. times_from_file, outputs, parameters, every Algorithm parameter, "
         "fitness arguments ...) read back leaf by leaf and compared inside Coq and with the same objects built in Python, "
         "derived readouts / sweep points compared inside Coq, run_mode on YAML-built vs Python-built objects, and dask "
@@ -1709,7 +1723,9 @@ META = dict(
         "preserved, derived objects, run equality) is testing of pyxel.load / Readout.replace / Processor.replace against a "
         "proved model, not a proof about the code. The checker is sound but incomplete (a guard written as a union of "
         "intervals would be reported as unchecked). Integrality of row/col/adc_bit_resolution is not part of the checked "
-        "range; a guard may be type-strict about in-range numpy scalars."),
+        "range (a fractional value inside the range may be accepted or refused; if accepted it must be what the field "
+        "holds); a guard may be type-strict about in-range numpy scalars. An empty section that is the only one of its "
+        "group may be refused by its builder or loaded with defaults (not judged)."),
     technique="Coq proof over regenerated guard tables (reflective interval checker) + in-Coq correspondence/spec evaluation",
     design_ref="DESIGN.md section 6, C12",
 )
